@@ -97,6 +97,14 @@ CHECKS = {
             "Different-bound dependent pairs and cross-type literal equality are unspecified; composite types get clauses (a), "
             "(b) and crash-freedom only; F1-family disagreements need the frozen transcription to predict the observation.",
             "DESIGN.md §4 C10"),
+    "C11": ("exploration",
+            "runtime monitor: dispatch answer (which generated method body ran) vs the value type's own isinstance / documented Literal equality, over companion sets that steer every generated code path",
+            "For each target value type the method that runs for every corpus value is compared with the set of registered "
+            "value types that contain the value (isinstance; Literal by equality semantics). Companion sets put the target on "
+            "the if-chain, lookup-table and counting paths; the path taken is read back for the evidence.",
+            "isinstance of the library's own type objects is the specification for non-Literal types (statement); multi-match "
+            "cases accept any containing method or the ambiguity error.",
+            "DESIGN.md §4 C11"),
     "C12": ("exploration",
             "runtime law monitor on typeorder: mirror symmetry, reflexivity, issubclass agreement and transitivity, generic and member laws, on generated closures and online on every pair the library compares during dispatch",
             "All ordered pairs of a bounded-depth closure (built twice) are checked against the algebraic laws the statement "
